@@ -102,8 +102,8 @@ var guardTable = []guardRow{
 	{Func: "transform.ConvertExtendedSpatialIDsToQuadkeysAndAltitudekeys", Class: "Z35", Param: 2, Props: "C11 C15", Doc: "outputAltitudekeyZoom outside 0-35"},
 	{Func: "transform.ConvertExtendedSpatialIDsToQuadkeysAndAltitudekeys", Class: "ARITY5", Param: 0, Elem: true, Props: "C11 C15", Doc: "malformed extended ID"},
 	{Func: "transform.ConvertExtendedSpatialIDsToQuadkeysAndAltitudekeys", Class: "INT", Param: 0, Elem: true, Props: "C11 C15", Doc: "non-integer field"},
-	{Func: "transform.ConvertTileXYZsToExtendedSpatialIDs", Class: "Z35", Param: 3, Elem: false, Props: "C13 C15", Doc: "outputVZoom outside 0-35 (for a non-empty request)"},
-	{Func: "transform.ConvertTileXYZsToSpatialIDs", Class: "Z35", Param: 3, Props: "C13 C15", Doc: "output zoom outside 0-35 (for a non-empty request)"},
+	{Func: "transform.ConvertTileXYZsToExtendedSpatialIDs", Class: "Z35", Param: 3, Elem: false, NonEmpty: 1, Props: "C13 C15", Doc: "outputVZoom outside 0-35 (for a non-empty request)"},
+	{Func: "transform.ConvertTileXYZsToSpatialIDs", Class: "Z35", Param: 3, NonEmpty: 1, Props: "C13 C15", Doc: "output zoom outside 0-35 (for a non-empty request)"},
 	{Func: "transform.GetExtendedSpatialIdsWithinRadiusOfLine", Class: "NIL", Param: 0, Props: "C14 C15", Doc: "nil start point"},
 	{Func: "transform.GetExtendedSpatialIdsWithinRadiusOfLine", Class: "NIL", Param: 1, Props: "C14 C15", Doc: "nil end point"},
 	{Func: "transform.GetExtendedSpatialIdsWithinRadiusOfLine", Class: "NONNEGF", Param: 2, Props: "C14 C15", Doc: "negative radius is an error"},
